@@ -451,7 +451,7 @@ def roundtrip_program_strategy(tier: str):
         "allow_known": st.sampled_from([False] * 9 + [True]),
         # a user session on the file that was read back: values assigned through set_data_value, then written again
         "edits": st.lists(st.fixed_dictionaries({"form": st.integers(0, 9),
-                                                 "how": st.sampled_from(["stored", "stored", "fresh"])}), max_size=3),
+                                                 "how": st.sampled_from(["stored", "stored", "fresh", "invalid"])}), max_size=3),
     })
 
 
@@ -1076,11 +1076,27 @@ def run_edit_session(program, built, ifile, form_names, res, pid):
     if not cands:
         return
     assigned = {}
+    refused_any = False
     for edit in program["edits"]:
         name = cands[edit["form"] % len(cands)]
         form = ifile.ui_json[name]
         stored = form["value"]
         value = stored
+        if edit["how"] == "invalid":
+            # a value of the wrong type: the assignment is refused (the user's code catches the error and carries on);
+            # the parameter keeps what it had and the session must still write a file that reads back
+            wrong = 5 if isinstance(stored, str) else "not a number" if not isinstance(stored, bool) else "maybe"
+            kept = snap(ifile.data[name])
+            try:
+                ifile.set_data_value(name, wrong)
+            except Exception as exc:
+                res.label(f"edit:invalid-refused:{type(exc).__name__}")
+                if snap(ifile.data[name]) != kept:
+                    res.label("refused-edit-changed-data")  # C15's clause; here the second write / read decides
+                refused_any = True
+                continue
+            res.label("edit:invalid-accepted")  # outside the form's domain and not refused: nothing to demand
+            return
         if edit["how"] == "fresh":
             value = (not stored) if isinstance(stored, bool) else (stored + "x") if isinstance(stored, str) else stored + 1
         state = ("disabled" if form.get("enabled") is False else "property-mode" if form.get("isValue") is False
@@ -1092,7 +1108,7 @@ def run_edit_session(program, built, ifile, form_names, res, pid):
             continue
         assigned[name] = (value, edit["how"], state)
         res.label(f"edit:{edit['how']}:{state}")
-    if not assigned:
+    if not assigned and not refused_any:
         return
     mem = {name: snap(ifile.data[name]) for name in assigned}
     for name, (value, how, state) in assigned.items():
